@@ -27,17 +27,24 @@ type fakeDaemon struct {
 	inventory []map[string]any  // as served by /containers/json
 	logs      map[string][]byte // id -> multiplexed stream
 	requests  []string          // "id since until" per logs request
+	sock, dir string
 }
 
 var logsPath = regexp.MustCompile(`^(?:/v[0-9.]+)?/containers/([^/]+)/logs$`)
 var listPath = regexp.MustCompile(`^(?:/v[0-9.]+)?/containers/json$`)
 
 func startFakeDaemon() (*fakeDaemon, error) {
-	ln, err := net.Listen("tcp", "127.0.0.1:0")
+	// a unix socket (like the real daemon's): no network stack needed
+	dir, err := os.MkdirTemp("", "e2e-sock-")
 	if err != nil {
 		return nil, err
 	}
-	d := &fakeDaemon{ln: ln, logs: map[string][]byte{}}
+	sock := filepath.Join(dir, "docker.sock")
+	ln, err := net.Listen("unix", sock)
+	if err != nil {
+		return nil, err
+	}
+	d := &fakeDaemon{ln: ln, logs: map[string][]byte{}, sock: sock, dir: dir}
 	mux := http.NewServeMux()
 	mux.HandleFunc("/", func(w http.ResponseWriter, r *http.Request) {
 		w.Header().Set("Api-Version", "1.43")
@@ -76,9 +83,12 @@ func startFakeDaemon() (*fakeDaemon, error) {
 	return d, nil
 }
 
-func (d *fakeDaemon) Addr() string { return "tcp://" + d.ln.Addr().String() }
+func (d *fakeDaemon) Addr() string { return "unix://" + d.sock }
 
-func (d *fakeDaemon) Close() { _ = d.srv.Close() }
+func (d *fakeDaemon) Close() {
+	_ = d.srv.Close()
+	_ = os.RemoveAll(d.dir)
+}
 
 // Load installs an inventory with logs; returns nothing. Containers: id, names, labels, log bytes.
 func (d *fakeDaemon) Load(ctrs []e2eCtr) {
